@@ -23,10 +23,11 @@ var c13Bodies = []string{
 	`{{ yield wrap() content }}{{ yield wrap() content }}{{ mayFail() }}{{ end }}{{ end }}`,
 	`{{ range k, v := r }}{{ y := v }}{{ mayFail() }}{{ end }}`,
 	`{{ block inner() "ctx3" }}{{ y := 5 }}{{ mayFail() }}{{ end }}`,
+	`{{ yield wrapv() content }}{{ y := 6 }}{{ mayFail() }}{{ end }}`,
 }
 
 // what each body renders when nothing fails (p is the symbolic prefix value printed first)
-var c13BodyOut = []string{"", "", "", "", "<>", "", "", "", "<<>>", "", ""}
+var c13BodyOut = []string{"", "", "", "", "<>", "", "", "", "<<>>", "", "", "<>"}
 
 var c13Catches = []string{`{{ catch e }}C{{ e != nil }}<{{ . }}>`, `{{ catch }}C<{{ . }}>`, ``}
 
@@ -70,7 +71,7 @@ func H_C13_try() {
 	}
 	set := hxSet(nil,
 		"/m.jet", `{{ import "/lib.jet" }}`+main,
-		"/lib.jet", `{{ block wrap() }}<{{ yield content }}>{{ end }}`,
+		"/lib.jet", `{{ block wrap() }}<{{ yield content }}>{{ end }}{{ block wrapv() }}{{ bv := 2 }}<{{ yield content }}>{{ end }}`,
 		"/inc.jet", `{{ y := 4 }}{{ mayFail() }}`,
 	)
 	vars := make(VarMap)
@@ -78,10 +79,11 @@ func H_C13_try() {
 	vars.Set("r", []string{"e1"})
 	vars.SetFunc("fail", hxFail)
 	// the failure is an error value, or a Go runtime error raised inside the called function
-	// (integer division by zero, nil map write): try catches both
+	// (integer division by zero, nil map write), or a panic with a value that is no error: try
+	// catches all of them
 	failKind := 0
 	if fails && b <= 1 {
-		failKind = ndChoice("failKind", 3)
+		failKind = ndChoice("failKind", 4)
 	}
 	vars.SetFunc("mayFail", func(a Arguments) reflect.Value {
 		if fails {
@@ -92,6 +94,8 @@ func H_C13_try() {
 			case 2:
 				var m map[string]int
 				m["k"] = 1
+			case 3:
+				panic("a plain string, not an error value")
 			}
 			panic(errors.New("mayFail"))
 		}
